@@ -361,7 +361,7 @@ class ExecuteDispatch(ClientContract):
 class ProcessVariables(ClientContract):
     """`_process_variables`: nothing to do for absent/empty variables; otherwise the files are separated from the
     converted variables (UNSET dropped, models dumped) and the triple of `_get_files_from_variables` is returned"""
-    props = ("C11",)
+    props = ("C11", "C03")
     method = "_process_variables"
     use_at_calls = False
     frame_args = False
